@@ -37,6 +37,7 @@ struct Stats {
     std::unordered_set<std::uint64_t> distinct_all;
     std::map<std::string, std::uint64_t> labels;
     std::map<std::string, std::uint64_t> excluded;
+    std::map<std::string, std::uint64_t> counters;
     std::vector<std::string> samples;
     std::string once_note;
     bool failed = false;
@@ -95,6 +96,9 @@ void dump_stats() {
     o << "},\"excluded\":{";
     first = true;
     for (auto& [k, v] : g.excluded) { o << (first ? "" : ",") << "\"" << jesc(k) << "\":" << v; first = false; }
+    o << "},\"counters\":{";
+    first = true;
+    for (auto& [k, v] : g.counters) { o << (first ? "" : ",") << "\"" << jesc(k) << "\":" << v; first = false; }
     o << "},\"samples\":[";
     first = true;
     for (auto& s : g.samples) { o << (first ? "" : ",") << "\"" << jesc(s) << "\""; first = false; }
@@ -183,6 +187,7 @@ Res execute(const std::vector<std::uint8_t>& bytes, Ctx& c, bool count) {
         g.evaluations++;
         if (res == Res::Excluded) g.excluded_cases++;
         for (auto* l : c.labels) g.labels[l]++;
+        for (auto& [k, v] : c.counters) g.counters[k] += v;
         std::uint64_t h = fnv(c.desc);
         g.distinct_all.insert(h);
         if (c.nontrivial && res != Res::Excluded) {
